@@ -1,5 +1,6 @@
 """Type-directed generator of IR programs (DESIGN.md §4.2). Everything derives from one `Rng`."""
 from vlib import Rng
+import gen_tokio
 
 
 class Gen:
@@ -31,6 +32,8 @@ class Gen:
                     objs.append((name, kind, [str(r.choice([0, 1, 1, 2, 3])), r.choice(["fair", "unfair"])]))
                 elif kind == "tls":
                     objs.append((name, kind, ["none"]))      # destructor kinds are fixed up below
+                elif kind in gen_tokio.KINDS:
+                    objs.append((name, kind, gen_tokio.obj_args(r, kind, p)))
                 else:
                     objs.append((name, kind, []))
         # thread-local destructors: log / touch another key / lock a mutex
@@ -81,6 +84,8 @@ class Gen:
         k = r.choice(kinds) if kinds else "yield"
         if k == "atomic" and self.names(objs, "atomic"):
             return self.atomic_op(objs)
+        if k in gen_tokio.BLOCKS:
+            return gen_tokio.block(self, k, objs, ntasks, body) or ["yield"]
         if k == "yield":
             return ["yield"]
         if k == "sleep":
@@ -410,6 +415,161 @@ class Gen:
         lines.append(f"run {run}")
         return lines
 
+    # ------------------------------------------------------------------ async layer (profiles with "async")
+    def async_leaf(self, objs, k, nt, fut):
+        """one awaitable: the tokens of an async op"""
+        r, p = self.r, self.p
+        ws = self.names(objs, "wslot")
+        others = [j for j in range(1, nt) if j != k and self.is_fut[j]]
+        c = r.below(10)
+        if c < 4 and ws:
+            w = r.choice(ws)
+            self.pends.append((k, w))
+            return f"pend {w}"
+        if c < 6:
+            return "fyield"
+        if c < 8 and others:
+            return f"fjoin {k if fut and r.chance(1, 15) else r.choice(others)}"
+        if self.names(objs, "sem") and p.get("asem"):
+            return f"acq_await {r.below(3)}"
+        return "fyield"
+
+    def async_op(self, objs, k, nt, fut):
+        """ops for body k of an async program; fut = body k is a future"""
+        r, p = self.r, self.p
+        w = p.get("aweights", {})
+        kinds = []
+        for kk, wt in w.items():
+            kinds += [kk] * wt
+        c = r.choice(kinds)
+        ws = self.names(objs, "wslot")
+        futs = [j for j in range(1, nt) if self.is_fut[j]]
+        others = [j for j in futs if j != k]
+        if c == "await":
+            leaf = self.async_leaf(objs, k, nt, fut)
+            if fut and not r.chance(1, 6):
+                return [leaf]
+            return ["block_on " + ("block_on " if r.chance(1, 10) else "") + leaf]
+        if c == "wake" and ws:
+            return [f"{'wake_only' if r.chance(1, 4) else 'wake'} {r.choice(ws)}"]
+        if c == "abort" and futs:
+            j = r.choice(others if others and not r.chance(1, 8) else futs)
+            out = [f"fabort {j}"]
+            if r.chance(1, 4):
+                out.append(f"fabort {j}")
+            if r.chance(1, 3):
+                out.append(f"fis_finished {j}")
+            return out
+        if c == "detach" and others:
+            return [f"fdetach {r.choice(others)}"]
+        if c == "isfin" and futs:
+            return [f"fis_finished {r.choice(futs)}"]
+        if c == "lockawait" and self.names(objs, "mutex"):
+            m = r.choice(self.names(objs, "mutex"))
+            inner = [self.async_leaf(objs, k, nt, fut)] if fut else ["yield"]
+            if r.chance(1, 3) and self.names(objs, "atomic"):
+                inner += self.atomic_op(objs)
+            return [f"lock {m}"] + inner + ([] if r.chance(1, 6) else [f"unlock {m}"])
+        if c == "asem" and self.names(objs, "sem"):
+            return self.asem_block(objs, k, nt, fut)
+        if c == "sem" and self.names(objs, "sem"):
+            return self.sem_block(objs, nt)
+        if c == "atomic" and self.names(objs, "atomic"):
+            return self.atomic_op(objs)
+        if c == "lock" and self.names(objs, "mutex"):
+            return self.lock_block(objs, nt, 1)
+        if c == "tls" and self.names(objs, "tls"):
+            return [f"tls_with {r.choice(self.names(objs, 'tls'))}"]
+        if c == "send" and self.names(objs, "chan"):
+            return self.send_block(objs)
+        if c == "recv" and self.names(objs, "chan"):
+            return self.recv_block(objs, k)
+        if c == "park":
+            return ["park"]
+        if c == "unpark":
+            return [f"unpark {r.below(nt)}"]
+        if c == "yield":
+            return ["yield"]
+        if c == "rand":
+            return ["rand"]
+        if c == "panic":
+            return ["panic"]
+        return ["fyield"] if fut else ["yield"]
+
+    def asem_block(self, objs, k, nt, fut):
+        r = self.r
+        s = r.choice(self.names(objs, "sem"))
+        n = r.choice([1, 1, 1, 2, 2, 3])
+        h = r.below(3)
+        aw = (lambda x: x) if fut else (lambda x: "block_on " + x)
+        c = r.below(20)
+        if c < 6:
+            rel = [] if r.chance(1, 6) else [f"release {s} {n}"]
+            return [f"acq_new {h} {s} {n}", aw(f"acq_await {h}")] + rel
+        if c < 9:
+            # poll once by hand, await only if still pending
+            return [f"acq_new {h} {s} {n}", f"acq_poll {h}", "if ready:ok skip 1", aw(f"acq_await {h}"), f"release {s} {n}"]
+        if c < 11:
+            return [f"acq_new {h} {s} {n}", f"acq_poll {h}", f"acq_drop {h}"]          # cancel while queued
+        if c < 13:
+            return [f"acq_new {h} {s} {n}"] + ([f"acq_poll {h}"] if r.chance(1, 2) else [])   # left for another task
+        if c < 15:
+            return [f"acq_poll {h}"] * (2 if r.chance(1, 4) else 1)                     # someone else's future
+        if c < 16:
+            return [aw(f"acq_await {h}")]
+        if c < 17:
+            return [f"acq_drop {h}"]
+        if c < 19:
+            return [f"release {s} {n}"]
+        return [f"close {s}"] if r.chance(1, 2) else [f"try_acquire {s} {n}"]
+
+    def program_async(self, name, run):
+        r, p = self.r, self.p
+        objs = self.pick_objs()
+        nt = 1 + p.get("min_tasks", 1) + r.below(p.get("extra_tasks", 2) + 1)
+        self.is_fut = [False] + [r.chance(p.get("fut", 8), 10) for _ in range(1, nt)]
+        if not any(self.is_fut):
+            self.is_fut[1] = True
+        self.rx_owner = {c: (0 if r.chance(1, 2) else r.below(nt)) for c in self.names(objs, "chan")}
+        self.pends = []
+        bodies = [[] for _ in range(nt)]
+        for k in range(nt):
+            for _ in range(p.get("min_ops", 1) + r.below(p.get("extra_ops", 3))):
+                bodies[k] += self.async_op(objs, k, nt, self.is_fut[k])
+        # most `pend w` get a matching `wake w` somewhere else
+        for (k, w) in self.pends:
+            if r.chance(p.get("wake_pairs", 8), 10):
+                j = r.choice([x for x in range(nt) if x != k] or [0])
+                pos = r.below(len(bodies[j]) + 1)
+                while pos > 0 and pos < len(bodies[j]) and self._inside_skip(bodies[j], pos):
+                    pos -= 1
+                bodies[j].insert(pos, f"wake {w}")
+        for k in range(1, nt):
+            parent = 0 if r.chance(*p.get("parent0", (2, 3))) else r.below(k)
+            pos = r.below(len(bodies[parent]) + 1) if r.chance(1, 2) else 0
+            while pos > 0 and pos < len(bodies[parent]) and self._inside_skip(bodies[parent], pos):
+                pos -= 1
+            bodies[parent].insert(pos, f"{'fspawn' if self.is_fut[k] else 'spawn'} {k}")
+            if r.chance(p.get("joins", 7), 10):
+                j = r.choice([parent, parent, 0])
+                if not self.is_fut[k]:
+                    bodies[j].append(f"join {k}")
+                elif self.is_fut[j] and not r.chance(1, 8):
+                    bodies[j].append(f"fjoin {k}")
+                else:
+                    bodies[j].append(f"fjoin_block {k}" if r.chance(1, 2) else f"block_on fjoin {k}")
+            elif self.is_fut[k] and r.chance(p.get("detaches", 3), 10):
+                bodies[parent].append(f"fdetach {k}")
+        lines = [f"=== {name}", f"config steps={p.get('steps', 'none')} clocks={1 if p.get('clocks', True) else 0}"]
+        for n, k, a in objs:
+            lines.append(" ".join(["obj", n, k] + a))
+        for k, b in enumerate(bodies):
+            lines.append(f"task {k} {'future' if self.is_fut[k] else 'thread'}")
+            lines += ["  " + o for o in b]
+            lines.append("end")
+        lines.append(f"run {run}")
+        return lines
+
     @staticmethod
     def _inside_skip(ops, pos):
         for i, o in enumerate(ops):
@@ -474,10 +634,24 @@ PROFILES = {
     "atomics": {"objs": {"atomic": (1, 3)}, "atypes": True,
                 "weights": {"atomic": 8, "yield": 1, "rand": 1},
                 "min_tasks": 1, "extra_tasks": 2, "min_ops": 2, "extra_ops": 5},
+    # ---- async layer (C17): `program_async`
+    "async": {"async": True, "objs": {"atomic": (1, 1), "mutex": (0, 1), "wslot": (1, 2), "tls": (0, 1)},
+              "aweights": {"await": 8, "wake": 3, "atomic": 3, "lock": 1, "lockawait": 2, "yield": 1, "rand": 1, "isfin": 1, "tls": 1, "park": 1, "unpark": 1},
+              "min_tasks": 1, "extra_tasks": 2, "min_ops": 1, "extra_ops": 3},
+    "async_abort": {"async": True, "objs": {"atomic": (1, 1), "mutex": (0, 1), "wslot": (1, 2), "tls": (0, 1), "chan": (0, 1)},
+                    "aweights": {"await": 6, "wake": 2, "abort": 6, "detach": 2, "isfin": 2, "atomic": 2, "lockawait": 3, "yield": 1, "tls": 1, "send": 2, "recv": 2},
+                    "joins": 8, "min_tasks": 1, "extra_tasks": 2, "min_ops": 1, "extra_ops": 3},
+    "async_sem": {"async": True, "asem": True, "objs": {"atomic": (0, 1), "sem": (1, 2), "wslot": (0, 1)},
+                  "aweights": {"asem": 10, "sem": 2, "await": 2, "wake": 1, "abort": 2, "atomic": 1, "yield": 1},
+                  "min_tasks": 1, "extra_tasks": 2, "min_ops": 1, "extra_ops": 3},
+    "async_dl": {"async": True, "objs": {"atomic": (0, 1), "mutex": (0, 1), "wslot": (1, 2)}, "wake_pairs": 3, "joins": 3, "detaches": 7,
+                 "aweights": {"await": 9, "wake": 1, "detach": 3, "atomic": 1, "lockawait": 2, "abort": 1, "panic": 1},
+                 "min_tasks": 1, "extra_tasks": 2, "min_ops": 1, "extra_ops": 2},
     "locks": {"objs": {"atomic": (1, 2), "mutex": (1, 2), "rwlock": (0, 1)},
               "weights": {"atomic": 3, "yield": 1, "lock": 5, "rw": 3, "rand": 1},
               "min_tasks": 1, "extra_tasks": 2, "min_ops": 1, "extra_ops": 4},
 }
+PROFILES.update(gen_tokio.PROFILES)
 
 
 def runs_for(rng, kinds=("random", "pct", "rr", "dfs")):
@@ -498,5 +672,5 @@ def batch(seed, profile, count, prefix, kinds=("random", "pct", "rr", "dfs")):
     g = Gen(rng, PROFILES[profile] if isinstance(profile, str) else profile)
     lines = []
     for i in range(count):
-        lines += g.program(f"{prefix}{i}", runs_for(rng, kinds))
+        lines += (g.program_async if g.p.get("async") else g.program)(f"{prefix}{i}", runs_for(rng, kinds))
     return lines
